@@ -420,6 +420,11 @@ class FlowMixin:
                 mv = self.peek(mn, st, fr)
                 m = const_of(norm(mv)) if mv is not None else None
                 if isinstance(cur, BitV) and isinstance(m, int):
+                    bf = dict(st.extra.get("bitfacts", {}))
+                    for i, b in enumerate(cur.bits):
+                        if (m >> i) & 1 and isinstance(b, tuple) and b[0] == "s":
+                            bf[b[1]] = 1 if b[2] else 0
+                    st.extra["bitfacts"] = bf
                     bits = tuple(0 if (m >> i) & 1 else b for i, b in enumerate(cur.bits))
                     hi = 0 if (m < 0 or m >> NBITS) else cur.hi
                     self.set_path_value(xn, norm(BitV(bits, hi if m < 0 else cur.hi, None)), st, fr)
